@@ -311,6 +311,9 @@ def replay_file(pid, path):
     if line[1] == "grouping":
         import emit_props
         return emit_props.replay_grouping(pid, path)
+    if line[1] == "c03":
+        import c03_props
+        return c03_props.replay(pid, line, path)
     if line[1] == "ctor":
         import lower_props
         return lower_props.replay_ctor(pid, line, path)
